@@ -26,32 +26,48 @@ def _bencode(data: typing.Union[int, bytes, bytearray, str, list, tuple, dict]) 
 
 
 def _bdecode(data: bytes, start_index: int = 0) -> typing.Tuple[typing.Union[int, bytes, list, tuple, dict], int]:
+    if start_index >= len(data):
+        raise DecodeError("unexpected end of data")
     if data[start_index] == ord('i'):
-        end_pos = data[start_index:].find(b'e') + start_index
+        end_pos = data.find(b'e', start_index)
+        if end_pos < 0:
+            raise DecodeError("unterminated integer")
         return int(data[start_index + 1:end_pos]), end_pos + 1
     elif data[start_index] == ord('l'):
         start_index += 1
         decoded_list = []
-        while data[start_index] != ord('e'):
+        while True:
+            if start_index >= len(data):
+                raise DecodeError("unterminated list")
+            if data[start_index] == ord('e'):
+                break
             list_data, start_index = _bdecode(data, start_index)
             decoded_list.append(list_data)
         return decoded_list, start_index + 1
     elif data[start_index] == ord('d'):
         start_index += 1
         decoded_dict = {}
-        while data[start_index] != ord('e'):
+        while True:
+            if start_index >= len(data):
+                raise DecodeError("unterminated dict")
+            if data[start_index] == ord('e'):
+                break
             key, start_index = _bdecode(data, start_index)
             value, start_index = _bdecode(data, start_index)
             decoded_dict[key] = value
         return decoded_dict, start_index
     else:
-        split_pos = data[start_index:].find(b':') + start_index
+        split_pos = data.find(b':', start_index)
+        if split_pos < 0:
+            raise DecodeError("missing string length separator")
         try:
             length = int(data[start_index:split_pos])
         except (ValueError, TypeError) as err:
             raise DecodeError(err)
         start_index = split_pos + 1
         end_pos = start_index + length
+        if end_pos > len(data):
+            raise DecodeError("string runs past the end of the data")
         return data[start_index:end_pos], end_pos
 
 
